@@ -537,16 +537,29 @@ impl TypedArrayKind {
     /// Convert `value` into the typed array element corresponding to this `TypedArrayKind`,
     /// assuming the `ContentType` of this kind is `Number`.
     pub(crate) fn to_element_f64(self, value: f64) -> TypedArrayElement {
-        match self {
-            TypedArrayKind::Int8 => TypedArrayElement::Int8(value as i8),
-            TypedArrayKind::Uint8 => TypedArrayElement::Uint8(value as u8),
-            TypedArrayKind::Uint8Clamped => {
-                TypedArrayElement::Uint8Clamped(ClampedU8(value.clamp(0.0, 255.0).round() as u8))
+        /// `ToUintN`: truncate, then modulo `2^bits` computed exactly on the `f64`
+        /// (an `as` cast would saturate instead of wrapping).
+        fn modulo(value: f64, bits: u32) -> u32 {
+            if value.is_finite() {
+                value.trunc().rem_euclid(f64::from(bits).exp2()) as u32
+            } else {
+                0
             }
-            TypedArrayKind::Int16 => TypedArrayElement::Int16(value as i16),
-            TypedArrayKind::Uint16 => TypedArrayElement::Uint16(value as u16),
-            TypedArrayKind::Int32 => TypedArrayElement::Int32(value as i32),
-            TypedArrayKind::Uint32 => TypedArrayElement::Uint32(value as u32),
+        }
+
+        match self {
+            TypedArrayKind::Int8 => TypedArrayElement::Int8(modulo(value, 8) as u8 as i8),
+            TypedArrayKind::Uint8 => TypedArrayElement::Uint8(modulo(value, 8) as u8),
+            TypedArrayKind::Uint8Clamped => {
+                // `ToUint8Clamp` rounds ties to even; NaN becomes 0 through the saturating cast.
+                TypedArrayElement::Uint8Clamped(ClampedU8(
+                    value.clamp(0.0, 255.0).round_ties_even() as u8,
+                ))
+            }
+            TypedArrayKind::Int16 => TypedArrayElement::Int16(modulo(value, 16) as u16 as i16),
+            TypedArrayKind::Uint16 => TypedArrayElement::Uint16(modulo(value, 16) as u16),
+            TypedArrayKind::Int32 => TypedArrayElement::Int32(modulo(value, 32) as i32),
+            TypedArrayKind::Uint32 => TypedArrayElement::Uint32(modulo(value, 32)),
             #[cfg(feature = "float16")]
             TypedArrayKind::Float16 => {
                 TypedArrayElement::Float16(Float16(float16::f16::from_f64(value)))
